@@ -21,6 +21,7 @@
 package engine
 
 import (
+	"fmt"
 	"go/token"
 	"reflect"
 
@@ -107,7 +108,9 @@ func (r SliceReplacer) Replace(d data.Data, cl Changelog, pos token.Pos) (reflec
 		if err != nil {
 			return reflect.Value{}, err
 		}
-		v.Index(i).Set(item)
+		if err := setValue(v.Index(i), item); err != nil {
+			return reflect.Value{}, err
+		}
 	}
 
 	return v, nil
@@ -143,7 +146,9 @@ func (r StructReplacer) Replace(d data.Data, cl Changelog, pos token.Pos) (refle
 		if err != nil {
 			return reflect.Value{}, err
 		}
-		v.Field(i).Set(fv)
+		if err := setValue(v.Field(i), fv); err != nil {
+			return reflect.Value{}, fmt.Errorf("%v.%v: %w", r.Type, r.Type.Field(i).Name, err)
+		}
 	}
 	return v, nil
 }
@@ -183,4 +188,22 @@ type ValueReplacer struct{ Value reflect.Value }
 // Replace replaces a value as-is.
 func (r ValueReplacer) Replace(data.Data, Changelog, token.Pos) (reflect.Value, error) {
 	return r.Value, nil
+}
+
+// setValue sets dst to src if a value of src's type may be placed there.
+//
+// Replacers reproduce values captured from the matched code, so what they
+// generate isn't always valid where the patch places it. For example, an
+// expression metavariable that matched a function call cannot be placed
+// where the Go AST accepts only an identifier.
+func setValue(dst, src reflect.Value) error {
+	if !src.IsValid() || !src.Type().AssignableTo(dst.Type()) {
+		var got any = "nothing"
+		if src.IsValid() {
+			got = src.Type()
+		}
+		return fmt.Errorf("cannot use %v where %v is expected", got, dst.Type())
+	}
+	dst.Set(src)
+	return nil
 }
